@@ -95,35 +95,5 @@ public:
 	size_t nvs;
 };
 
-class Solver {
-public:
-	void *_verif_vptr;
-	Solver(Variables const &vs, Constraints const &cs);
-	bool satisfy();
-	bool solve();
-	Blocks *bs;
-	size_t m;
-	std::vector<Constraint*> const &cs;
-	size_t n;
-	std::vector<Variable*> const &vs;
-	bool needsScaling;
-	void copyResult();
-	void refine();
-@SOLVER_EXTRA@
-};
-
-class IncSolver : public Solver {
-public:
-	IncSolver(Variables const &vs, Constraints const &cs);
-	bool satisfy();
-	bool solve();
-	void addConstraint(Constraint *constraint);
-	void moveBlocks();
-	void splitBlocks();
-	unsigned splitCnt;
-	Constraints inactive;
-	Constraints violated;
-	Constraint* mostViolated(Constraints &l);
-@INCSOLVER_EXTRA@
-};
+@SOLVER_CLASSES@
 }
